@@ -81,7 +81,7 @@ def tasks(tier):
     ts = [("format", k) for k in range(len(arg_forms()))]
     ts += [("string",), ("activity", "print"), ("activity", "assert"), ("activity", "assume"), ("literal",),
            ("activity", "print-under-enable"), ("activity", "assert-under-enable")]
-    ts += [("grammar", t) for t in "bodxXcs "] + [("grammar-reject",), ("reset",)]
+    ts += [("grammar", t) for t in "bodxXcs "] + [("grammar-reject",), ("reset",), ("print-args",)]
     return ts
 
 
@@ -381,6 +381,54 @@ def unit_reset():
                          "failures": 0 if bad2 is None else 1}]}
 
 
+def unit_print_args():
+    """Print(*args, sep=, end=) emits what Python's print(*args, sep=, end=) would for the formatted arguments: the
+    arguments' texts joined by `sep` (an empty argument still takes its place), followed by `end` -- every combination of
+    the listed argument kinds (empty / literal strings with braces, Format objects with and without fields, values) in
+    lists of 0..3 arguments x separators x terminators, on the real simulator."""
+    import itertools
+    from amaranth.hdl import Module, Print, Format, Signal, Const, ClockDomain
+    from amaranth.sim import Simulator
+    x = Signal(8, init=0xfd, name="x")
+    y = Signal(range(-8, 8), init=-3, name="y")
+    kinds = [("''", lambda: "", ""), ("'a{b}'", lambda: "a{b}", "a{b}"), ("Format('')", lambda: Format(""), ""),
+             ("Format('{:x}', x)", lambda: Format("{:x}", x), "fd"), ("y", lambda: y, "-3"), ("Format('<{}>', y)", lambda: Format("<{}>", y), "<-3>")]
+    seps = [" ", "", "-", "{}"]
+    ends = ["\n", "", ";"]
+    cases = 0
+    bad = None
+    for n in range(0, 4):
+        for combo in itertools.product(range(len(kinds)), repeat=n):
+            if n == 3 and sum(1 for k in combo if k < 3) == 0:
+                continue                       # three non-empty arguments add nothing over two
+            for sep, end in itertools.product(seps, ends):
+                cases += 1
+                args = [kinds[k][1]() for k in combo]
+                want = sep.join(kinds[k][2] for k in combo) + end
+                m = Module()
+                m.domains += ClockDomain("sync", reset_less=True)
+                try:
+                    m.d.sync += Print(*args, sep=sep, end=end)
+                    sim = Simulator(m)
+                    sim.add_clock(1e-6)
+                    with captured_print() as cp:
+                        sim.run_until(1.2e-6)
+                    got = "".join(str(a[0]) if a else "" for a, _k in cp.calls[:1])
+                    extra = len(cp.calls) > 1
+                except Exception as e:
+                    got, extra = repr(e)[:200], False
+                if (got != want or extra) and not (want == "" and got == ""):
+                    if bad is None:
+                        bad = {"Print arguments": [kinds[k][0] for k in combo], "sep": sep, "end": end, "emitted": got, "python print() gives": want,
+                               "how": "Print(*args, sep=sep, end=end) in a sync domain of the real Simulator, one active edge (x = 0xfd, y = -3)"}
+    ok = bad is None
+    return {"task": "print-args", "paths": cases, "solver_s": 0.0, "obligations": [
+        {"name": "print-args::joined-by-sep-terminated-by-end", "kind": "bounded", "status": "proved" if ok else "refuted", "backend": "cpython",
+         "time_s": 0.0, **({} if ok else {"failing_input": bad})}],
+        "bounded": [{"name": "Print argument lists", "bound": "0..3 arguments of 6 kinds x 4 separators x 3 terminators", "cases": cases,
+                     "failures": 0 if ok else 1}]}
+
+
 def _spec_space(tier_thorough=False):
     fills = [None, "x", "0", " ", "{", "}", "é"]
     aligns = [None, "<", ">", "="]
@@ -518,6 +566,8 @@ def run_task(task):
         return unit_grammar_reject()
     if k == "reset":
         return unit_reset()
+    if k == "print-args":
+        return unit_print_args()
     if k == "canary-format":
         return unit_format(2, broken=True)
     raise KeyError(k)
